@@ -154,3 +154,24 @@ Print Assumptions C08_5_generated.
 Print Assumptions C08_nonvacuous_await.
 Print Assumptions C08_nonvacuous_drop.
 Print Assumptions C08_2_generated.
+
+(* C08 (5) with NO pool thread: caller 0 calls future_sync, polls once (its poll runs the slot job, the user future starts and waits for
+   event 0), drops the future (the user future is destroyed inside the slot), then desync and sync; caller 1 fires event 0 afterwards.
+   The sync of caller 0 drains the queue itself: the slot job sees Canceled and ends, everything finishes *)
+Definition PZY := [[OFutSync [PAwait 0; PTouch] (UDropAfter 1); ODesync; OSync]; [OFire 0]].
+Example C08_5_zero_pool_nonvacuous :
+  let r := frun 400 (init PZY 0 1) [] in
+  ywf 1 PZY /\ noawait [OFutSync [PAwait 0; PTouch] (UDropAfter 1); ODesync; OSync] /\
+  run G (init PZY 0 1) r.2 = Some r.1 /\ terminal G r.1 /\ (forall e, e < 1 -> (getev r.1 e).(fired) = true) /\
+  stacks r.1 !! 0 = Some [FTop []] /\ GUCancel 0 ∈ r.1.(log) /\ GYdrop 0 ∈ r.1.(log) /\ GFinish 0 ∈ r.1.(log).
+Proof.
+  cbv zeta. split; [by repeat constructor|]. split; [by repeat constructor|]. split; [vm_compute; reflexivity|].
+  split; [apply terminal_check; vm_compute; reflexivity|]. split; [intros e He; assert (e = 0) as -> by lia; vm_compute; reflexivity|].
+  split; [vm_compute; reflexivity|]. vm_compute log. rewrite !elem_of_cons. tauto.
+Qed.
+Example C08_5_dropping_caller_generated scripts npool nev tr s c sc : ywf nev scripts -> scripts !! c = Some sc -> noawait sc ->
+  run G (init scripts npool nev) tr = Some s -> terminal G s -> (forall e, e < nev -> (getev s e).(fired) = true) ->
+  stacks s !! c = Some [FTop []].
+Proof. apply (C08_5_dropping_caller_finishes_main G gen_all_cond gen_claim_cond). Qed.
+Print Assumptions C08_5_zero_pool_nonvacuous.
+Print Assumptions C08_5_dropping_caller_generated.
